@@ -1,6 +1,8 @@
 F = "dec/dec.py"
 G = "data/decfile.lark"
 MUTANTS = [
+    ("keyword-define-any-case", "data/decfile.lark", 'define : "Define" LABEL SIGNED_NUMBER', 'define : "Define"i LABEL SIGNED_NUMBER', "C07.1"),
+    ("lineshape-family-shrunk", "data/decfile.lark", 'LABEL_LINESHAPE : "LSFLAT" | "LSNONRELBW" | "LSMANYDELTAFUNC"', 'LABEL_LINESHAPE : "LSFLAT" | "LSNONRELBW"', "C07.1"),
     ("chargeconj-swapped", F, "            tree.children[0].value: tree.children[1].value\n            for tree in parsed_file.find_data(\"chargeconj\")", "            tree.children[1].value: tree.children[0].value\n            for tree in parsed_file.find_data(\"chargeconj\")", "C07.4"),
     ("jetset-float-first", F, "        try:\n            return int(n)\n        except ValueError:\n            try:\n                return float(n)", "        try:\n            return float(n)\n        except ValueError:\n            try:\n                return int(n)", "C07.6"),
     ("width-no-gev", F, "            return Particle.from_evtgen_name(pname).width / GeV  # type: ignore[operator]", "            return Particle.from_evtgen_name(pname).width  # type: ignore[operator]", "C07.7"),
